@@ -1,6 +1,6 @@
 /* Helpers shared by the scenario files.  C / C++ common subset. */
-#ifndef NSYNC_VERIF_SCEN_COMMON_H_
-#define NSYNC_VERIF_SCEN_COMMON_H_
+#ifndef NSYNC_VERIF_SCEN_SC_H_
+#define NSYNC_VERIF_SCEN_SC_H_
 #include <stdint.h>
 #include <stdio.h>
 #include <stdlib.h>
